@@ -21,7 +21,14 @@ fn digest(s: &str) -> String {
 }
 
 pub fn c13(args: &Args, reg: &[TypeEntry], log: &mut Log) {
-    super::dump(reg, log);
+    // every package asks in its own order (what is asked first must not matter); the verdict compares by id
+    let exe = std::env::args().next().unwrap_or_default();
+    let mut ask: Vec<usize> = (0..reg.len()).collect();
+    let mut order_rng = Rng::new(args.seed ^ u64::from_str_radix(&digest(&exe), 16).unwrap_or(1));
+    order_rng.shuffle(&mut ask);
+    let asked: Vec<TypeEntry> = ask.iter().map(|&i| reg[i].clone()).collect();
+    log.emit(json!({"ev": "dump-order", "first": asked.iter().take(5).map(|e| e.id.clone()).collect::<Vec<_>>()}));
+    super::dump(&asked, log);
     let root = args.scratch.join("c13/deep/cwd");
     std::fs::create_dir_all(&root).unwrap();
     std::env::set_current_dir(&root).unwrap();
@@ -81,9 +88,10 @@ pub fn c13(args: &Args, reg: &[TypeEntry], log: &mut Log) {
                         }
                     }
                 }
-                differing.truncate(4);
+                differing.truncate(6);
             }
-            log.emit(json!({"ev": "tree", "monitor": "C13", "threads": threads, "rep": rep, "digest": d, "files": tree.len(),
+            let file_digests: std::collections::BTreeMap<&String, String> = tree.iter().map(|(p, b)| (p, digest(&String::from_utf8_lossy(b)))).collect();
+            log.emit(json!({"ev": "tree", "monitor": "C13", "threads": threads, "rep": rep, "digest": d, "files": tree.len(), "file_digests": file_digests,
                 "same_as_first_in_process": same_as_first, "differing": differing, "errors": errors.iter().take(5).collect::<Vec<_>>(),
                 "n_errors": errors.len()}));
         }
